@@ -32,7 +32,8 @@ Eager      == {"xml", "soap11", "soap12"}      \* serialise inside get_out_strin
 Soap       == {"soap11", "soap12"}
 ReqClass   == {"valid", "badsyntax", "badenvelope", "unknown", "badargs"}
 Outcome    == {"ok", "fault_client", "fault_server", "fault_nf", "fault_auth",
-               "fault_405", "fault_413", "exc", "exc_type"}    \* exc_type: a TypeError (argument-passing code catches those)
+               "fault_405", "fault_413", "exc", "exc_type",    \* exc_type: a TypeError (argument-passing code catches those)
+               "redirect"}     \* the function raises HttpRedirect: not a fault - the answer is a 30x page written by the transport
 Where      == {"app", "svc", "svc2"}           \* which listener raises
 
 VARIABLES
@@ -72,13 +73,14 @@ Status(fam, f) == PP!Status(fam \in Soap, ClsOf(f), f)
 NoInj == [call |-> "ok", fn |-> "ok", ret |-> "ok", ser |-> "ok", at |-> "app", res |-> "plain", fin |-> "ok"]
 
 \* a single failure per call; built constructively (a filter over the full product is slow)
-Bad == Outcome \ {"ok"}
+Bad == Outcome \ {"ok", "redirect"}
 InjSet ==
      {[NoInj EXCEPT !.res = r] : r \in {"plain", "gen"}}
   \cup {[NoInj EXCEPT !.call = o, !.at = a] : o \in Bad, a \in Where}
   \cup {[NoInj EXCEPT !.fn = o, !.res = r] : o \in Bad, r \in {"plain", "gen"}}
   \cup {[NoInj EXCEPT !.ret = o, !.at = a] : o \in Bad, a \in Where}
   \cup {[NoInj EXCEPT !.ser = "exc"]}
+  \cup {[NoInj EXCEPT !.fn = "redirect"]}
   \* a raising method_context_closed / wsgi_close listener, on a success and on a fault
   \cup {[NoInj EXCEPT !.fin = f, !.fn = o] : f \in {"raise_closed", "raise_wsgiclose"}, o \in {"ok", "fault_client"}}
 
@@ -93,11 +95,12 @@ EventScenarios ==
       /\ (s.req.class = "badenvelope" => s.cfg.family \in Soap)
       /\ (s.req.class = "badsyntax" => s.cfg.family # "http")
       /\ (s.cfg.family = "http" => s.cfg.tr = "wsgi")
-      /\ (s.inj.fin # "ok" => s.cfg.tr = "wsgi") }
+      /\ (s.inj.fin # "ok" => s.cfg.tr = "wsgi")
+      /\ (s.inj.fn = "redirect" => s.cfg.tr = "wsgi") }
 
 \* body length x declared CONTENT_LENGTH x limit x block x chunked x outcome x abort
 WsgiInj == {i \in InjSet : i.call = "ok" /\ i.ret = "ok" /\ i.ser = "ok"
-                             /\ i.fn \in {"ok", "fault_client", "fault_413", "exc"}
+                             /\ i.fn \in {"ok", "fault_client", "fault_413", "exc", "redirect"}
                              /\ i.fin \in {"ok", "raise_wsgiclose"}}
 WsgiRpcOf(ML, BL, LEN, DECL) ==
   { s \in [cfg : [tr : {"wsgi"}, family : {"json", "soap11"}, chunked : BOOLEAN,
@@ -248,8 +251,18 @@ GenFirst ==
 CallFn ==
   /\ pc = "fn" /\ inj.res = "plain" /\ fnRuns' = fnRuns + 1 /\ Emit("fn", "call")
   /\ IF inj.fn = "ok" THEN pc' = "retobj" /\ fnOk' = TRUE /\ UNCHANGED outErr
+     ELSE IF inj.fn = "redirect" THEN pc' = "redirect" /\ UNCHANGED <<fnOk, outErr>>
                       ELSE pc' = "excobj" /\ outErr' = FaultOf(inj.fn) /\ UNCHANGED fnOk
   /\ UNCHANGED <<scen, inErr, bound, sr, status, clen, handed, chunks, closed, wclosed, nread>>
+
+\* Application.process_request, `except Redirect`: do_redirect() has the transport write the 30x page into ctx.out_string and
+\* set the response code; method_redirect fires; no object / document / string event follows (nothing is serialised)
+EvRedirect ==
+  /\ pc = "redirect" /\ Fire("method_redirect") /\ status' = 302 /\ pc' = "redirected"
+  /\ UNCHANGED <<scen, fnRuns, fnOk, inErr, outErr, bound, sr, clen, handed, chunks, closed, wclosed, nread>>
+RedirectReturn ==
+  /\ pc = "redirected" /\ Emit("wsgi", "wsgi_return") /\ pc' = "respond"
+  /\ UNCHANGED <<scen, fnRuns, fnOk, inErr, outErr, bound, sr, status, clen, handed, chunks, closed, wclosed, nread>>
 
 EvReturnObject ==
   /\ pc = "retobj"
@@ -305,7 +318,7 @@ StartResponse ==
   /\ ~(Dev("NonChunkedStrJoin") /\ ~cfg.chunked /\ outErr = NoFault)
   /\ sr' = sr + 1 /\ Emit("sr", status)
   \* Content-Length is sent for faults and for non-chunked successes
-  /\ clen' = IF outErr # NoFault \/ ~cfg.chunked THEN 1 ELSE Absent
+  /\ clen' = IF outErr # NoFault \/ ~cfg.chunked \/ inj.fn = "redirect" THEN 1 ELSE Absent
   /\ pc' = IF Dev("CloseBeforeBody") THEN "finalize_early" ELSE "handover"
   /\ UNCHANGED <<scen, fnRuns, fnOk, inErr, outErr, bound, status, handed, chunks, closed, wclosed, nread>>
 
@@ -360,7 +373,7 @@ IterClose ==
 
 Next == \/ CtxCreate \/ WsgiCall \/ WsdlRespond \/ CallGenFn \/ GenFirst \/ ReadBlock \/ ReadEof \/ ReadDone \/ RefuseTooLong
         \/ GenContextsOk \/ GenContextsFail \/ DeserOk \/ DeserFail
-        \/ EvMethodCall \/ CallFn \/ EvReturnObject \/ EvExceptionObject
+        \/ EvMethodCall \/ CallFn \/ EvRedirect \/ RedirectReturn \/ EvReturnObject \/ EvExceptionObject
         \/ SerializeOk \/ SerializeFail \/ EvReturnDocString \/ HandleError
         \/ NonChunkedJoinCrash \/ StartResponse \/ BaseRespond \/ FinalizeEarly
         \/ HandOver \/ Chunk \/ BodyEnd \/ Finalize \/ IterClose
@@ -374,7 +387,7 @@ Spec == Init /\ [][Next]_vars /\ WF_vars(Next)
 Done == pc = "done"
 K == [tr |-> cfg.tr, rpc |-> req.kind = "rpc", mayEscape |-> inj.fin # "ok",
       wcloseExpected |-> inj.fin # "raise_closed", soap |-> cfg.family \in Soap, done |-> Done,
-      fault |-> outErr # NoFault, fnOk |-> fnOk, fnRuns |-> fnRuns,
+      fault |-> outErr # NoFault, fnOk |-> fnOk, fnRuns |-> fnRuns, redirect |-> (inj.fn = "redirect" /\ fnRuns > 0),
       infault |-> inErr # NoFault,
       malformed |-> (req.kind = "rpc" /\ (req.class # "valid" \/ (Truncated /\ cfg.family # "http"))),
       code |-> outErr, cls |-> ClsOf(outErr),
